@@ -242,7 +242,13 @@ def c01_4(ctx, ss):
     okd = len(dflt) == 1 and isinstance(dflt[0], ast.Constant) and dflt[0].value is True
     (ctx.holds if okd else ctx.violation)("C01.4", ckey(ff, None, "default"), where(ff, ff.node),
                                           "the PHOTOS flag is reported by default" if okd else "display_photos_keyword no longer defaults to True: the PHOTOS flag of a line is not reported by default")
-    # the four fields
+    details_fields(ctx, ss, "C01.4")
+
+
+def details_fields(ctx, ss, rule):
+    """The four reported fields of one decay line are the four accessors applied to that very line
+    (shared: C01.4 and C16.9 — the printed rows are built from these fields)."""
+    ff, flow = fn(ss, DEC, "DecFileParser._decay_mode_details")
     rets = returns(ff)
     if len(rets) != 1:
         raise AnchorMissing("_decay_mode_details: expected one return")
@@ -257,7 +263,7 @@ def c01_4(ctx, ss):
     want = {"bf": "get_branching_fraction", "fs": "get_final_state_particle_names",
             "model": "get_model_name", "model_params": "get_model_parameters"}
     if set(fields) != set(want):
-        ctx.violation("C01.4", ckey(ff, rets[0], "fields"), where(ff, rets[0]), f"reported fields are {sorted(fields)}, expected {sorted(want)}")
+        ctx.violation(rule, ckey(ff, rets[0], "fields"), where(ff, rets[0]), f"reported fields are {sorted(fields)}, expected {sorted(want)}")
         return
     for name, acc in want.items():
         e = flow.expand(fields[name])
@@ -271,12 +277,27 @@ def c01_4(ctx, ss):
                 core = core.orelse
             if not (isinstance(core, ast.Call) and txt(core.func) == acc and len(core.args) == 1 and not core.keywords
                     and is_identity(core.args[0], "decay_mode")):
-                ok = False
+                # not the accessor call itself: accept an expression that reads the same grammar positions with the same conversions
+                if not _same_signature(ss, core, acc):
+                    ok = False
         kk = ckey(ff, rets[0], f"field:{name}")
         if ok:
-            ctx.holds("C01.4", kk, where(ff, rets[0]), f"field `{name}` = {acc}(decay_mode)", len(alts_))
+            ctx.holds(rule, kk, where(ff, rets[0]), f"field `{name}` = {acc}(decay_mode)", len(alts_))
         else:
-            ctx.violation("C01.4", kk, where(ff, rets[0]), f"field `{name}` is `{txt(e)[:120]}`, not {acc}(<this decay line>)")
+            ctx.violation(rule, kk, where(ff, rets[0]), f"field `{name}` is `{txt(e)[:120]}`, not {acc}(<this decay line>)")
+
+
+def _same_signature(ss, expr, acc) -> bool:
+    from ..core.treetypes import TreeTyper
+    from .common import module_resolver
+    try:
+        gp = post_replacement_grammar(grammar_facts(ss, G))
+        want, errs, unk, _ = accessor_sig(ss, gp, DEC, acc, "decay_mode", "decayline")
+        tt = TreeTyper(gp, module_resolver(ss, DEC))
+        got = tt.ev(expr, {"decay_mode": tt.tree("decayline")}, ())
+        return not errs and not tt.errors and not tt.unknown and "?" not in got.sig() and got.sig() == want
+    except Exception:
+        return False
 
 
 def _self_attr_store(st, attr):
